@@ -17,6 +17,7 @@
 #include <signal.h>
 #include <setjmp.h>
 #include <unistd.h>
+#include <sys/time.h>
 #include "cstl/heap.h"
 #include "cstl/slist.h"
 #include "cstl/dlist.h"
@@ -26,12 +27,19 @@
 #include "cstl/array.h"
 #include "cstl/vector.h"
 #include "cstl/string.h"
+#include "cstl/memory.h"
 
 static FILE *out;
 static long rec_id;
 static sigjmp_buf jb, jb2;
 static volatile int use2;            /* an abort that is the expected outcome of a call is caught separately */
 static void onsig(int s) { if (use2) { use2 = 0; siglongjmp(jb2, s); } siglongjmp(jb, s); }
+/* a scenario that does not come back: judged on the CPU time of this process (a busy machine is not a hang) */
+static void cpu_limit(int secs)
+{
+    struct itimerval it; memset(&it, 0, sizeof it); it.it_value.tv_sec = secs;
+    setitimer(ITIMER_PROF, &it, NULL);
+}
 static unsigned long rs;
 static unsigned long rnd(void) { rs = rs * 6364136223846793005UL + 1442695040888963407UL; return rs >> 33; }
 
@@ -76,7 +84,7 @@ static void end_ok(void) { fprintf(out, ",\"priv\":%s,\"out\":\"ok\"}\n", priv_o
 /* after a crash, abort or hang inside the library nothing that follows can be trusted: report and stop */
 static void end_sig(int sig)
 {
-    fprintf(out, "\"out\":\"%s\"}\n", sig == SIGALRM ? "hang" : sig == SIGABRT ? "abort" : "segv"); fflush(out);
+    fprintf(out, "\"out\":\"%s\"}\n", (sig == SIGALRM || sig == SIGPROF) ? "hang" : sig == SIGABRT ? "abort" : "segv"); fflush(out);
     fclose(out);
     printf("{\"records\":%ld,\"stopped\":true}\n", rec_id);
     _exit(0);
@@ -114,7 +122,7 @@ static void do_heap(long n, int pattern)
     sig = sigsetjmp(jb, 1);
     if (sig == 0) {
         void *e0, *e1;
-        alarm(40);
+        cpu_limit(150);
         cstl_heap_init(&h, cmp, &priv_token, offsetof(struct el, hn));
         for (i = 1; i <= n; i++) {
             cstl_heap_push(&h, &pool[i]); pushed[i - 1] = pool[i].v;
@@ -129,12 +137,12 @@ static void do_heap(long n, int pattern)
             if (critical((unsigned long)(n - 1 - i))) { nshape++; if (!heap_complete(&h)) shapes_ok = 0; }
         }
         e0 = (void *)cstl_heap_get(&h); e1 = cstl_heap_pop(&h);
-        alarm(0);
+        cpu_limit(0);
         put_list("pushed", pushed, n); fputs(",", out); put_list("popped", popped, n); fputs(",", out); put_list("ids", ids, n);
         fprintf(out, ",\"shapes\":%ld,\"complete\":%s,\"sizes\":%s,\"emptynull\":%s", nshape, shapes_ok ? "true" : "false",
                 sizes_ok ? "true" : "false", (!e0 && !e1 && cstl_heap_size(&h) == 0) ? "true" : "false");
         end_ok();
-    } else { alarm(0); end_sig(sig); }
+    } else { cpu_limit(0); end_sig(sig); }
     free(pushed); free(popped); free(ids);
 }
 
@@ -153,7 +161,7 @@ static void do_list(long n, int dl)
     sig = sigsetjmp(jb, 1);
     if (sig == 0) {
         long size1, size2, backid, frontid;
-        alarm(40);
+        cpu_limit(150);
         if (dl) { cstl_dlist_init(&D, offsetof(struct el, dn)); for (i = 1; i <= n; i++) cstl_dlist_push_back(&D, &pool[i]); cstl_dlist_sort(&D, cmp, &priv_token); }
         else { cstl_slist_init(&S, offsetof(struct el, sn)); for (i = 1; i <= n; i++) cstl_slist_push_back(&S, &pool[i]); cstl_slist_sort(&S, cmp, &priv_token); }
         size1 = (long)(dl ? cstl_dlist_size(&D) : cstl_slist_size(&S));
@@ -171,11 +179,11 @@ static void do_list(long n, int dl)
         size2 = (long)(dl ? cstl_dlist_size(&D) : cstl_slist_size(&S));
         w = rev;
         if (size2 <= n + 1) { if (dl) cstl_dlist_foreach(&D, visit_s, &w, CSTL_DLIST_FOREACH_DIR_FWD); else cstl_slist_foreach(&S, visit_s, &w); }
-        alarm(0);
+        cpu_limit(0);
         fprintf(out, ",\"size2\":%ld,\"backid\":%ld,\"frontid\":%ld,", size2, backid, frontid);
         put_list("rev", rev + 1, (w - rev) > 0 ? (w - rev) - 1 : 0);      /* without the extra element, now first */
         end_ok();
-    } else { alarm(0); end_sig(sig); }
+    } else { cpu_limit(0); end_sig(sig); }
     free(before); free(after); free(ids); free(rev);
 }
 
@@ -208,7 +216,7 @@ static void do_tree(long n, int rb)
     sig = sigsetjmp(jb, 1);
     if (sig == 0) {
         size_t hmin = 0, hmax = 0, hmin2 = 0, hmax2 = 0; long size1, size2, found = 0, erased = 0, visited1, ordered1, cleared1, once1, size1b;
-        alarm(40);
+        cpu_limit(150);
         if (rb) cstl_rbtree_init(&T, cmp, &priv_token, offsetof(struct el, rn));
         else { memset(&T, 0, sizeof T); cstl_bintree_init(&T.t, cmp, &priv_token, offsetof(struct el, rn.n)); }
         for (i = 1; i <= n; i++) { if (rb) cstl_rbtree_insert(&T, &pool[i], NULL); else cstl_bintree_insert(&T.t, &pool[i], NULL); }
@@ -231,14 +239,14 @@ static void do_tree(long n, int rb)
         if (rb) cstl_rbtree_foreach(&T, visit_t, NULL, CSTL_BINTREE_FOREACH_DIR_FWD); else cstl_bintree_foreach(&T.t, visit_t, NULL, CSTL_BINTREE_FOREACH_DIR_FWD);
         nclr = 0; clr_once = 1;
         if (rb) cstl_rbtree_clear(&T, clear_t, NULL); else cstl_bintree_clear(&T.t, clear_t, NULL);
-        alarm(0);
+        cpu_limit(0);
         fprintf(out, "\"size\":%ld,\"hmax\":%ld,\"found\":%ld,\"probes\":%ld,\"visited1\":%ld,\"ordered1\":%s,\"cleared1\":%ld,\"once1\":%s,\"size1b\":%ld,"
                 "\"erased\":%ld,\"size2\":%ld,\"hmax2\":%ld,\"visited\":%ld,\"ordered\":%s,\"cleared\":%ld,\"once\":%s,\"size3\":%ld",
                 size1, (long)hmax, found, (n + 96) / 97, visited1, ordered1 ? "true" : "false", cleared1, once1 ? "true" : "false", size1b,
                 erased, size2, (long)hmax2, nvis, ordered ? "true" : "false", nclr, clr_once ? "true" : "false",
                 (long)(rb ? cstl_rbtree_size(&T) : cstl_bintree_size(&T.t)));
         end_ok();
-    } else { alarm(0); end_sig(sig); }
+    } else { cpu_limit(0); end_sig(sig); }
 }
 
 /* ---- map: n ascending keys, find, erase a few, clear with a callback, reuse ---- */
@@ -259,7 +267,7 @@ static void do_map(long n)
     sig = sigsetjmp(jb, 1);
     if (sig == 0) {
         long ins0 = 0, dup1 = 0, found = 0, probes = 0, erased = 0, size1, size2, size3, size4, cleared1, once1; cstl_map_iterator_t it;
-        alarm(40);
+        cpu_limit(150);
         cstl_map_init(&M, kcmp, &priv_token);
         for (i = 0; i < n; i++) if (cstl_map_insert(&M, &mkeys[i], &mkeys[i], NULL) == 0) ins0++;
         for (i = 0; i < n; i += 1009) if (cstl_map_insert(&M, &mkeys[i], NULL, &it) == 1 && it.val == (void *)&mkeys[i]) dup1++;
@@ -278,12 +286,12 @@ static void do_map(long n)
         nclr = 0; clr_once = 1;
         cstl_map_clear(&M, clear_m, NULL);
         size4 = (long)cstl_map_size(&M);
-        alarm(0);
+        cpu_limit(0);
         fprintf(out, "\"ins0\":%ld,\"dup1\":%ld,\"dups\":%ld,\"size\":%ld,\"found\":%ld,\"probes\":%ld,\"cleared1\":%ld,\"once1\":%s,\"size2\":%ld,"
                 "\"erased\":%ld,\"size3\":%ld,\"cleared\":%ld,\"once\":%s,\"size4\":%ld",
                 ins0, dup1, (n + 1008) / 1009, size1, found, probes, cleared1, once1 ? "true" : "false", size2, erased, size3, nclr, clr_once ? "true" : "false", size4);
         end_ok();
-    } else { alarm(0); end_sig(sig); }
+    } else { cpu_limit(0); end_sig(sig); }
     free(mkeys); free(mseen);
 }
 
@@ -308,7 +316,7 @@ static void do_hash(long n)
     if (sig == 0) {
         long found = 0, notfound = 0, resizes = 0, maxcalls = 0, overdue = 0, size1, vis1, once1, erased = 0, size2, vis2, once2, gone_found = 0, size3, size4;
         long pend_ops = 0, pend_budget = 0; unsigned long c0;
-        alarm(40);
+        cpu_limit(150);
         cstl_hash_init(&H, offsetof(struct el, xn));
         cstl_hash_resize(&H, 16, hid);
         for (i = 1; i <= n; i++) {
@@ -345,13 +353,13 @@ static void do_hash(long n)
         for (i = 1; i <= 5; i++) { pool[i].cleared = 0; cstl_hash_insert(&H, (size_t)pool[i].v, &pool[i]); }
         size4 = (long)cstl_hash_size(&H);
         cstl_hash_clear(&H, NULL);
-        alarm(0);
+        cpu_limit(0);
         fprintf(out, "\"size\":%ld,\"found\":%ld,\"absent\":%s,\"resizes\":%ld,\"maxcalls\":%ld,\"overdue\":%ld,\"visited1\":%ld,\"once1\":%s,"
                 "\"erased\":%ld,\"size2\":%ld,\"gonefound\":%ld,\"visited\":%ld,\"once\":%s,\"cleared\":%ld,\"clronce\":%s,\"size3\":%ld,\"size4\":%ld,\"hbad\":%lu",
                 size1, found, notfound ? "true" : "false", resizes, maxcalls, overdue, vis1, once1 ? "true" : "false",
                 erased, size2, gone_found, vis2, once2 ? "true" : "false", nclr, clr_once ? "true" : "false", size3, size4, hbad);
         end_ok();
-    } else { alarm(0); end_sig(sig); }
+    } else { cpu_limit(0); end_sig(sig); }
     free(hseen);
 }
 
@@ -384,7 +392,7 @@ static void do_sort1(long n, int pattern, int algo, int via)
     fprintf(out, "\"pattern\":%d,\"algo\":%d,\"via\":%d,", pattern, algo, via);
     sig = sigsetjmp(jb, 1);
     if (sig == 0) {
-        alarm(40);
+        cpu_limit(150);
         if (via == 0) cstl_raw_array_sort(arr, (size_t)n, sizeof *arr, rcmp, &priv_token, cstl_swap, &arr[n], (cstl_sort_algorithm_t)algo);
         else {
             struct cstl_vector v;
@@ -394,13 +402,13 @@ static void do_sort1(long n, int pattern, int algo, int via)
             memcpy(arr, cstl_vector_data(&v), (size_t)n * sizeof *arr);
             cstl_vector_clear(&v);
         }
-        alarm(0);
+        cpu_limit(0);
         for (i = 0; i < G; i++) if (block[i] != 0x5C || block[G + ((size_t)n + 1) * sizeof *arr + (size_t)i] != 0x5C) guards = 0;
         for (i = 0; i < n; i++) ids[i] = arr[i].id;
         put_list("before", before, n); fputs(",", out); put_list("ids", ids, n);
         fprintf(out, ",\"guards\":%s", guards ? "true" : "false");
         end_ok();
-    } else { alarm(0); end_sig(sig); }
+    } else { cpu_limit(0); end_sig(sig); }
     free(before); free(ids); free(block);
 }
 static void do_sort(long n)
@@ -428,7 +436,7 @@ static void do_vec(long n)
     sig = sigsetjmp(jb, 1);
     if (sig == 0) {
         long c1, cap1, kept1, cap2, kept2, d2, size2, cap3, kept3, sorted = 1, d3, size4, atend;
-        alarm(40);
+        cpu_limit(150);
         nctor = ndtor = xbad = 0;
         cstl_vector_init_complex(&v, sizeof(struct v12), vctor, vdtor, &priv_token);
         for (i = 1; i <= n; i = i * 3 / 2 + 1) cstl_vector_resize(&v, (size_t)i);            /* grow in steps */
@@ -446,13 +454,13 @@ static void do_vec(long n)
         { int s2 = sigsetjmp(jb2, 1); atend = 0; if (s2 == 0) { use2 = 1; (void)cstl_vector_at(&v, (size_t)(n / 2)); use2 = 0; } else atend = s2 == SIGABRT; }
         cstl_vector_clear(&v);
         d3 = ndtor; size4 = (long)cstl_vector_size(&v);
-        alarm(0);
+        cpu_limit(0);
         fprintf(out, "\"ctors\":%ld,\"cap1\":%ld,\"kept1\":%s,\"cap2\":%ld,\"dtors2\":%ld,\"size2\":%ld,\"kept2\":%s,\"cap3\":%ld,\"kept3\":%s,"
                 "\"sorted\":%s,\"atend\":%s,\"dtors\":%ld,\"size4\":%ld,\"xbad\":%ld",
                 c1, cap1, kept1 ? "true" : "false", cap2, d2, size2, kept2 ? "true" : "false", cap3, kept3 ? "true" : "false",
                 sorted ? "true" : "false", atend ? "true" : "false", d3, size4, xbad);
         end_ok();
-    } else { alarm(0); end_sig(sig); }
+    } else { cpu_limit(0); end_sig(sig); }
 }
 
 /* ---- string: n characters appended in pieces, text inserted in the middle, the first half erased, substring, find ---- */
@@ -464,7 +472,7 @@ static void do_str(long n)
     if (sig == 0) {
         long size1, size2, size3, term = 1, content = 1, f1, f2, f3, subsize, cmp0, cap;
         const char *p;
-        alarm(40);
+        cpu_limit(150);
         cstl_string_init(&s); cstl_string_init(&sub);
         for (i = 0; i < n; i += 1000) cstl_string_append_ch(&s, (size_t)(n - i < 1000 ? n - i : 1000), (char)('a' + (i / 1000) % 3));
         size1 = (long)cstl_string_size(&s);
@@ -486,11 +494,142 @@ static void do_str(long n)
         cmp0 = cstl_string_compare_str(&sub, cstl_string_str(&s) + 1);
         cap = (long)cstl_string_capacity(&s);
         cstl_string_clear(&s); cstl_string_clear(&sub);
-        alarm(0);
+        cpu_limit(0);
         fprintf(out, "\"size1\":%ld,\"size2\":%ld,\"term\":%s,\"content\":%s,\"f1\":%ld,\"f2\":%ld,\"f3\":%ld,\"size3\":%ld,\"subsize\":%ld,\"cmp0\":%ld,\"cap\":%ld",
                 size1, size2, term ? "true" : "false", content ? "true" : "false", f1, f2, f3, size3, subsize, cmp0, cap);
         end_ok();
-    } else { alarm(0); end_sig(sig); }
+    } else { cpu_limit(0); end_sig(sig); }
+}
+
+/* ---- 70 000 references to one allocation: shared pointers (plus a weak one), then array views of one buffer ---- */
+static long pclr;
+static void pclear(void *m, void *p) { (void)m; (void)p; pclr++; }
+static void do_refs(long n)
+{
+    cstl_shared_ptr_t *sp; cstl_weak_ptr_t w; cstl_shared_ptr_t t; long i; int sig;
+    begin("refsbig", n);
+    sig = sigsetjmp(jb, 1);
+    if (sig == 0) {
+        long sameget = 1, lockmid, uniqmid, clrmid, locklast, uniqlast, clrlast, lockend, clrend; void *m;
+        cpu_limit(150);
+        pclr = 0;
+        sp = calloc((size_t)n, sizeof *sp);
+        for (i = 0; i < n; i++) cstl_shared_ptr_init(&sp[i]);
+        cstl_weak_ptr_init(&w); cstl_shared_ptr_init(&t);
+        cstl_shared_ptr_alloc(&sp[0], 64, pclear);
+        m = cstl_shared_ptr_get(&sp[0]);
+        cstl_weak_ptr_from(&w, &sp[0]);
+        for (i = 1; i < n; i++) { cstl_shared_ptr_share(&sp[0], &sp[i]); if (cstl_shared_ptr_get(&sp[i]) != m) sameget = 0; }
+        /* n owners: a lock must find an owner, nobody is unique, nothing cleared */
+        cstl_weak_ptr_lock(&w, &t); lockmid = cstl_shared_ptr_get(&t) == m; cstl_shared_ptr_reset(&t);
+        uniqmid = cstl_shared_ptr_unique(&sp[0]); 
+        cstl_shared_ptr_reset(&sp[n - 1]);                         /* one of n owners goes: still live */
+        clrmid = pclr; if (cstl_shared_ptr_get(&sp[0]) != m) sameget = 0;
+        for (i = 1; i < n - 1; i++) cstl_shared_ptr_reset(&sp[i]);
+        cstl_weak_ptr_lock(&w, &t); locklast = cstl_shared_ptr_get(&t) == m; cstl_shared_ptr_reset(&t);
+        uniqlast = cstl_shared_ptr_unique(&sp[0]);                  /* one owner + one weak reference: not unique */
+        clrlast = pclr;
+        cstl_shared_ptr_reset(&sp[0]);
+        clrend = pclr;
+        cstl_weak_ptr_lock(&w, &t); lockend = cstl_shared_ptr_get(&t) != NULL; cstl_shared_ptr_reset(&t);
+        cstl_weak_ptr_reset(&w);
+        free(sp);
+        cpu_limit(0);
+        fprintf(out, "\"sameget\":%s,\"lockmid\":%ld,\"uniqmid\":%ld,\"clrmid\":%ld,\"locklast\":%ld,\"uniqlast\":%ld,\"clrlast\":%ld,\"clrend\":%ld,\"lockend\":%ld",
+                sameget ? "true" : "false", lockmid, uniqmid, clrmid, locklast, uniqlast, clrlast, clrend, lockend);
+        end_ok();
+    } else { cpu_limit(0); end_sig(sig); }
+}
+static void do_views(long n)
+{
+    cstl_array_t *a; long i; int sig; static int ext[64];
+    begin("viewsbig", n);
+    sig = sigsetjmp(jb, 1);
+    if (sig == 0) {
+        void *b = (void *)&b; long early, size0, inside = 1, late, sizeend;
+        cpu_limit(150);
+        a = calloc((size_t)n + 1, sizeof *a);
+        for (i = 0; i <= n; i++) cstl_array_init(&a[i]);
+        cstl_array_set(&a[0], ext, 64, sizeof ext[0]);
+        for (i = 1; i <= n; i++) cstl_array_slice(&a[0], (size_t)(i % 32), (size_t)(i % 32) + 8, &a[i]);
+        cstl_array_release(&a[0], &b); early = b != NULL;               /* n other users: must refuse and change nothing */
+        size0 = (long)cstl_array_size(&a[0]);
+        for (i = 1; i <= n; i += 997) { int *q = cstl_array_at(&a[i], 7); if (q < ext || q >= ext + 64) inside = 0; }
+        for (i = 1; i <= n; i++) cstl_array_reset(&a[i]);
+        b = NULL; cstl_array_release(&a[0], &b); late = b == (void *)ext;   /* sole user now: the buffer comes back */
+        sizeend = (long)cstl_array_size(&a[0]);
+        free(a);
+        cpu_limit(0);
+        fprintf(out, "\"early\":%ld,\"size0\":%ld,\"inside\":%s,\"late\":%ld,\"sizeend\":%ld", early, size0, inside ? "true" : "false", late, sizeend);
+        end_ok();
+    } else { cpu_limit(0); end_sig(sig); }
+}
+
+/* ---- hash table with n elements under ONE key (a chain as long as the table is large) plus a thousand ordinary ones ---- */
+static void do_hashdup(long n)
+{
+    struct cstl_hash H; long i; int sig;
+    fresh_pool(n + 1000);
+    hseen = calloc((size_t)n + 1001, 1);
+    for (i = 1; i <= n; i++) pool[i].v = 5;
+    for (i = n + 1; i <= n + 1000; i++) pool[i].v = 1000 + i;
+    begin("hashdup", n);
+    sig = sigsetjmp(jb, 1);
+    if (sig == 0) {
+        long size1, vis1, once1, found5, foundlast, size2, vis2, once2, nerased = 0;
+        cpu_limit(150);
+        cstl_hash_init(&H, offsetof(struct el, xn));
+        cstl_hash_resize(&H, 64, hid);
+        for (i = 1; i <= n + 1000; i++) cstl_hash_insert(&H, (size_t)pool[i].v, &pool[i]);
+        size1 = (long)cstl_hash_size(&H);
+        cstl_hash_resize(&H, 257, hid2); cstl_hash_rehash(&H);            /* the long chain is relocated */
+        cstl_hash_resize(&H, 31, hid);                                     /* and again, incrementally, while shrinking */
+        found5 = id_of(cstl_hash_find(&H, 5, NULL, NULL)) >= 1;
+        foundlast = cstl_hash_find(&H, (size_t)pool[n + 1000].v, NULL, NULL) == &pool[n + 1000];
+        hvis = 0; hvis_once = 1; cstl_hash_foreach(&H, hvisit, NULL); vis1 = hvis; once1 = hvis_once;
+        for (i = 1; i <= n; i += 2 * (n / 200) + 1) { cstl_hash_erase(&H, &pool[i]); nerased++; }      /* each erase walks the chain */
+        size2 = (long)cstl_hash_size(&H);
+        cstl_hash_shrink_to_fit(&H);
+        memset(hseen, 0, (size_t)n + 1001);
+        hvis = 0; hvis_once = 1; cstl_hash_foreach_const(&H, (cstl_const_visit_func_t *)hvisit, NULL); vis2 = hvis; once2 = hvis_once;
+        cstl_hash_clear(&H, NULL);
+        cpu_limit(0);
+        fprintf(out, "\"size\":%ld,\"found5\":%ld,\"foundlast\":%ld,\"visited1\":%ld,\"once1\":%s,\"erased\":%ld,\"size2\":%ld,\"visited\":%ld,\"once\":%s",
+                size1, found5, foundlast, vis1, once1 ? "true" : "false", nerased, size2, vis2, once2 ? "true" : "false");
+        end_ok();
+    } else { cpu_limit(0); end_sig(sig); }
+    free(hseen);
+}
+
+/* ---- a vector of more than 2^32 one-byte elements, destructor only (the storage is never touched) ---- */
+static unsigned char *hv_base; static long hv_n, hv_bad; static unsigned long hv_lo, hv_hi;
+static void hv_dtor(void *e, void *p) { unsigned long off = (unsigned long)((unsigned char *)e - hv_base); (void)p; hv_n++; if (off < hv_lo || off >= hv_hi) hv_bad++; }
+static void do_vechuge(long extra)
+{
+    struct cstl_vector v; int sig; const unsigned long B = 1UL << 32;
+    begin("vechuge", extra);
+    sig = sigsetjmp(jb, 1);
+    if (sig == 0) {
+        long d1, d2, size1, size2, bad, skipped = 0;
+        cpu_limit(150);
+        cstl_vector_init_complex(&v, 1, NULL, hv_dtor, NULL);
+        cstl_vector_reserve(&v, (size_t)(B + 16));
+        if (cstl_vector_capacity(&v) < B + 16) skipped = 1;                 /* 4 GiB of address space not to be had here */
+        d1 = d2 = size1 = size2 = bad = 0;
+        if (!skipped) {
+            cstl_vector_resize(&v, (size_t)(B + 10));
+            hv_base = cstl_vector_data(&v);
+            hv_n = 0; hv_bad = 0; hv_lo = B + 5; hv_hi = B + 10;
+            cstl_vector_resize(&v, (size_t)(B + 5)); d1 = hv_n; size1 = (long)(cstl_vector_size(&v) - B);
+            hv_n = 0; hv_lo = B + 2; hv_hi = B + 5;
+            cstl_vector_resize(&v, (size_t)(B + 2)); d2 = hv_n; size2 = (long)(cstl_vector_size(&v) - B);
+            bad = hv_bad;
+            free(hv_base);                         /* not cleared: that would be 2^32 destructor calls */
+        }
+        cpu_limit(0);
+        fprintf(out, "\"skipped\":%s,\"d1\":%ld,\"size1\":%ld,\"d2\":%ld,\"size2\":%ld,\"bad\":%ld", skipped ? "true" : "false", d1, size1, d2, size2, bad);
+        end_ok();
+    } else { cpu_limit(0); end_sig(sig); }
 }
 
 int main(int argc, char **argv)
@@ -503,7 +642,7 @@ int main(int argc, char **argv)
         static char altstack[1 << 16]; stack_t ss; struct sigaction sa;
         ss.ss_sp = altstack; ss.ss_size = sizeof altstack; ss.ss_flags = 0; sigaltstack(&ss, NULL);
         memset(&sa, 0, sizeof sa); sa.sa_handler = onsig; sa.sa_flags = SA_ONSTACK | SA_NODEFER;
-        sigaction(SIGABRT, &sa, NULL); sigaction(SIGSEGV, &sa, NULL); sigaction(SIGBUS, &sa, NULL); sigaction(SIGALRM, &sa, NULL);
+        sigaction(SIGABRT, &sa, NULL); sigaction(SIGSEGV, &sa, NULL); sigaction(SIGBUS, &sa, NULL); sigaction(SIGALRM, &sa, NULL); sigaction(SIGPROF, &sa, NULL);
     }
     fprintf(out, "{\"id\":0,\"hdr\":true,\"mode\":\"big\"}\n");
     for (a = 3; a < argc; a++) {
@@ -514,8 +653,12 @@ int main(int argc, char **argv)
         else if (!strncmp(argv[a], "rb", 2)) do_tree(n, 1);
         else if (!strncmp(argv[a], "bst", 3)) do_tree(n, 0);
         else if (!strncmp(argv[a], "map", 3)) do_map(n);
-        else if (!strncmp(argv[a], "hash", 4)) do_hash(n);
+        else if (!strncmp(argv[a], "hash", 4) && strncmp(argv[a], "hashdup", 7)) do_hash(n);
         else if (!strncmp(argv[a], "sort", 4)) do_sort(n);
+        else if (!strncmp(argv[a], "vechuge", 7)) do_vechuge(n);
+        else if (!strncmp(argv[a], "hashdup", 7)) do_hashdup(n);
+        else if (!strncmp(argv[a], "refs", 4)) do_refs(n);
+        else if (!strncmp(argv[a], "views", 5)) do_views(n);
         else if (!strncmp(argv[a], "vec", 3)) do_vec(n);
         else if (!strncmp(argv[a], "str", 3)) do_str(n);
     }
